@@ -204,6 +204,39 @@ func (c *Ctx) effectSignature(fn *ssa.Function, prefixes ...string) (map[string]
 		}
 		per[fs.Key] = append(per[fs.Key], fs)
 	}
+	// stores made by small helpers of the same package that the function calls statically (one level): the helper's deltas
+	// are taken over; an amount that is a parameter of the helper becomes the caller's argument
+	for _, site := range callsIn(fn) {
+		call, ok := site.(*ssa.Call)
+		if !ok {
+			continue
+		}
+		g := call.Call.StaticCallee()
+		if g == nil || g.Blocks == nil || g == fn || fnPkgPath(g) != fnPkgPath(fn) || len(g.Blocks) > 12 || len(g.Params) != len(call.Call.Args) {
+			continue
+		}
+		if g.Object() != nil && g.Object().Exported() {
+			continue // exported operations are judged against their own model
+		}
+		if h := c.postReviewContext(g); h != c.Name(g) {
+			continue // helpers that existed at review time have their own place in the models
+		}
+		for _, fs := range c.DirectFieldStores(g) {
+			if fs.Fn != g || !hasPrefixAny(fs.Key, prefixes...) {
+				continue
+			}
+			cp := fs
+			cp.In = call
+			if p, isP := fs.SymK.(*ssa.Parameter); isP && paramIndex(g, p) >= 0 {
+				arg := call.Call.Args[paramIndex(g, p)]
+				cp.SymK = interface{}(arg)
+				cp.Sym = arg.Name()
+			} else {
+				cp.SymK = nil // an amount local to the helper: not compared across the accounting group
+			}
+			per[fs.Key] = append(per[fs.Key], cp)
+		}
+	}
 	var lines []string
 	for _, k := range sortedKeys(per) {
 		var cl []string
